@@ -131,6 +131,10 @@ def run(ctx, res):
             res.violations.append({'key': None, 'sig': 'layout:' + name, 'what': 'layout %s changes the result: one file %s, layout %s; only one-file %r, only layout %r'
                                    % (name, brief(w), brief(o), [x for x in (w[1] if w[0] == 'ok' else []) if o[0] == 'ok' and x not in o[1]][:3],
                                       [x for x in (o[1] if o[0] == 'ok' else []) if w[0] == 'ok' and x not in w[1]][:3]), 'replay': {'case': case, 'layout': lay}})
+    # sections with their own databases: the same mapping over same-named tables of two databases, against the Engine model and the Spec
+    for rec in batch.run([mapcase.gen_shard_case(ctx.rng) for _ in range(ctx.scale(12, 120))]):
+        res.count('layout:section-per-database')
+        family.judge(res, rec, known)
     # union of components run alone
     items, meta = [], []
     for case, rec in zip(cases, whole):
